@@ -39,7 +39,7 @@ Section PowAccuracy.
      operands by more than eps *)
   Variable eps : R.
   Hypothesis pow_accurate_from_below : forall b e r : Z,
-    (P18 / 2 <= b <= P18)%Z -> (0 <= e)%Z -> pow b e = Ok r ->
+    (P18 / 2 <= b <= P18)%Z -> (0 <= e)%Z -> (Z.quot e P18 <= 2 ^ 28)%Z -> pow b e = Ok r ->
     Rpower (IZR b / D18) (IZR e / D18) - eps <= IZR r / D18.
 
   (* exact-in swap, in/out assets with reserves Bi, Bj and weights wi, wj, a tokens in, spread factor fee:
@@ -55,16 +55,16 @@ Section PowAccuracy.
     let wrd := d_quo (dec_of_int (nthZ (b_w p) i)) (dec_of_int (nthZ (b_w p) j)) in
     let pt := Rpower (Bi / (Bi + a')) (wi / wj) in
     0 < Bi -> 0 < Bj -> 0 <= IZR a -> 0 < wi -> 0 < wj -> 0 <= IZR fee / D18 <= 1 ->
-    (P18 / 2 <= yd <= P18)%Z -> (0 <= wrd)%Z ->                              (* the explicit base range *)
+    (P18 / 2 <= yd <= P18)%Z -> (0 <= wrd)%Z -> (Z.quot wrd P18 <= 2 ^ 28)%Z ->   (* the explicit base / exponent range *)
     pt * (1 - eta) <= Rpower (IZR yd / D18) (IZR wrd / D18) ->              (* operand rounding *)
     0 <= eta + eps / pt < 1 ->
     Rpower Bi wi * Rpower Bj wj * Rpower (1 - (eta + eps / pt)) wj
       <= Rpower (Bi + IZR a) wi * Rpower (Bj - IZR out) wj.
   Proof.
-    intros H Bi Bj wi wj a' yd wrd pt HBi HBj Ha Hwi Hwj Hfee Hrange Hwr Hop He.
+    intros H Bi Bj wi wj a' yd wrd pt HBi HBj Ha Hwi Hwj Hfee Hrange Hwr Hwq Hop He.
     apply b_calc_out_floor in H as (y & wr & pw & Hy & Hwr' & Hpw & Hpos & Hfl & _).
     fold yd in Hy. fold wrd in Hwr'. subst y wr.
-    pose proof (pow_accurate_from_below yd wrd pw Hrange Hwr Hpw) as Hacc.
+    pose proof (pow_accurate_from_below yd wrd pw Hrange Hwr Hwq Hpw) as Hacc.
     pose proof D18_pos as HD.
     (* out <= Bj (1 - pw/1e18) *)
     apply IZR_le in Hfl. rewrite !mult_IZR, minus_IZR in Hfl. fold D18 Bj in Hfl.
@@ -152,7 +152,7 @@ Section PowAccuracyAbove.
   Variable eps : R.
   Hypothesis eps_nonneg : 0 <= eps.
   Hypothesis pow_accurate_from_above : forall b e r : Z,
-    (P18 <= b < 2 * P18)%Z -> (0 <= e)%Z -> pow b e = Ok r ->
+    (P18 <= b < 2 * P18)%Z -> (0 <= e < P18)%Z -> pow b e = Ok r ->
     IZR r / D18 <= Rpower (IZR b / D18) (IZR e / D18) + eps.
 
   (* single-asset join of a tokens into an asset with reserve B and normalised weight nw (18 decimals), share total S:
@@ -167,7 +167,7 @@ Section PowAccuracyAbove.
     let B := IZR bal in let S := IZR ts in let nw := IZR nwd / D18 in
     let pt := Rpower ((B + IZR a) / B) nw in
     0 < B -> 0 <= IZR a -> 0 < nw -> 0 < S -> (0 <= s)%Z ->
-    (P18 <= yd < 2 * P18)%Z -> (0 <= nwd)%Z ->                                 (* the explicit base range *)
+    (P18 <= yd < 2 * P18)%Z -> (0 <= nwd < P18)%Z ->                           (* the explicit base / exponent range *)
     Rpower (IZR yd / D18) nw <= pt * (1 + eta) -> 0 <= eta ->                  (* operand rounding *)
     Rpower B nw / S <= (1 + (eta + eps / pt)) * (Rpower (B + IZR a) nw / (S + IZR s)).
   Proof.
